@@ -98,7 +98,10 @@ class ABCARMPropertyGraph(ABCPropertyGraph):
         :return:
         """
         if prop_val is None:
-            graph.unset_node_property(node_id=node_id, prop_name=prop_name)
+            # nothing to remove if the node doesn't carry this kind of delegation
+            _, node_props = graph.get_node_properties(node_id=node_id)
+            if prop_name in node_props.keys():
+                graph.unset_node_property(node_id=node_id, prop_name=prop_name)
         else:
             graph.update_node_property(node_id=node_id, prop_name=prop_name,
                                        prop_val=prop_val.to_json())
